@@ -3,22 +3,53 @@
 // Nothing here models engeom's own code.  What is assumed:
 //   (a) the answer is a function of (mesh, plane normal, plane offset, epsilon): `tm_local_split`        [determinism]
 //   (b) Pair(a, b): a lies on the closed NEGATIVE side of the plane, b on the closed POSITIVE side (parry documents the
-//       pair in this order) and area(a) + area(b) == area(mesh) (a mesh without pseudo-normals is not capped);
+//       pair in this order); area(a) + area(b) == area(mesh) PROVIDED the mesh carries no pseudo-normals (`!tm_capped`):
+//       parry's local_split triangulates the cross-section and adds it as a CAP to both halves exactly when
+//       `self.pseudo_normals().is_some()` (split_trimesh.rs), and then the areas sum to the original plus twice the cap;
 //       Negative / Positive: the whole mesh lies on that side.
 //       `tm_side` and `tm_area` are UNINTERPRETED: the geometry is parry's business and is only passed through.
+//   (c) pseudo-normals exist exactly when the mesh was built with (or later given) the flag TriMeshFlags::ORIENTED
+//       (trimesh.rs: set_flags computes them iff the flag is requested); TriMesh::new uses no flags; construction from
+//       a NON-EMPTY index list without flags cannot fail (the only error of the flag-less path is EmptyIndices).
 pub enum SplitResult<T> { Pair(T, T), Negative, Positive }
 
 pub uninterp spec fn tm_local_split(m: &TriMesh, n: UnitVec3, d: real, eps: real) -> SplitResult<TriMesh>;
 pub uninterp spec fn tm_side(m: &TriMesh, n: UnitVec3, d: real, positive: bool) -> bool;   // every point of m on that closed side
 pub uninterp spec fn tm_area(m: &TriMesh) -> real;
+pub uninterp spec fn tm_capped(m: &TriMesh) -> bool;      // the mesh carries pseudo-normals: parry's split caps both halves
+
+// parry TriMeshFlags (bitflags): only the ORIENTED bit is modelled, the other bits are irrelevant to the split.
+// R11: `TriMeshFlags::NAME` -> `TriMeshFlags::NAME()`;  R10: `flags |= X;` -> `flags = flags.union(X);`
+#[derive(Clone, Copy)] pub struct TriMeshFlags { pub oriented: bool }
+#[allow(non_snake_case)]
+impl TriMeshFlags {
+    pub fn empty() -> (r: TriMeshFlags) ensures !r.oriented { TriMeshFlags { oriented: false } }
+    pub fn union(self, o: TriMeshFlags) -> (r: TriMeshFlags) ensures r.oriented == (self.oriented || o.oriented) { TriMeshFlags { oriented: self.oriented || o.oriented } }
+    pub fn HALF_EDGE_TOPOLOGY() -> (r: TriMeshFlags) ensures !r.oriented { TriMeshFlags { oriented: false } }
+    pub fn CONNECTED_COMPONENTS() -> (r: TriMeshFlags) ensures !r.oriented { TriMeshFlags { oriented: false } }
+    pub fn DELETE_BAD_TOPOLOGY_TRIANGLES() -> (r: TriMeshFlags) ensures !r.oriented { TriMeshFlags { oriented: false } }
+    pub fn MERGE_DUPLICATE_VERTICES() -> (r: TriMeshFlags) ensures !r.oriented { TriMeshFlags { oriented: false } }
+    pub fn DELETE_DEGENERATE_TRIANGLES() -> (r: TriMeshFlags) ensures !r.oriented { TriMeshFlags { oriented: false } }
+    pub fn DELETE_DUPLICATE_TRIANGLES() -> (r: TriMeshFlags) ensures !r.oriented { TriMeshFlags { oriented: false } }
+    pub fn ORIENTED() -> (r: TriMeshFlags) ensures r.oriented { TriMeshFlags { oriented: true } }
+    pub fn FIX_INTERNAL_EDGES() -> (r: TriMeshFlags) ensures r.oriented { TriMeshFlags { oriented: true } }   // contains ORIENTED
+}
 
 impl TriMesh {
+    #[verifier::external_body]
+    pub fn with_flags(vertices: Vec<Point3>, indices: Vec<[u32; 3]>, flags: TriMeshFlags) -> (r: Result<TriMesh>)
+        ensures r matches Ok(m) ==> tm_capped(&m) == flags.oriented,
+    { unimplemented!() }
+    #[verifier::external_body]
+    pub fn new(vertices: Vec<Point3>, indices: Vec<[u32; 3]>) -> (r: Result<TriMesh>)
+        ensures r matches Ok(m) ==> !tm_capped(&m), indices@.len() > 0 ==> r.is_ok(),
+    { unimplemented!() }
     #[verifier::external_body]
     pub fn local_split(&self, normal: &UnitVec3, bias: f64, epsilon: f64) -> (r: SplitResult<TriMesh>)
         ensures
             r == tm_local_split(self, *normal, rv(bias), rv(epsilon)),
             r matches SplitResult::Pair(a, b) ==> tm_side(&a, *normal, rv(bias), false) && tm_side(&b, *normal, rv(bias), true)
-                && tm_area(&a) + tm_area(&b) == tm_area(self),
+                && (!tm_capped(self) ==> tm_area(&a) + tm_area(&b) == tm_area(self)),
             r is Negative ==> tm_side(self, *normal, rv(bias), false),
             r is Positive ==> tm_side(self, *normal, rv(bias), true),
     { unimplemented!() }
